@@ -1,5 +1,6 @@
 (* C13 — extraction of the transition system (ExtrOcamlBasic only). *)
 Require Extraction.
 Require Import ExtrOcamlBasic.
-From Verif.C13 Require Import Extracted Model.
-Extraction "model_ml.ml" init step run final enabled_internal measure indexer_typed wq_cap ix_has.
+From Verif.C13 Require Import Extracted Model Walker.
+Extraction "model_ml.ml" init step run final enabled_internal measure indexer_typed wq_cap ix_has
+  wcfg_src winit wrun_fuel wfinal wstuck.
